@@ -10,6 +10,8 @@
 
 // ---------------------------------------------------------------- shared generation helpers (also used by reuse/interleave)
 void collect_names(const Node &n, std::vector<Bytes> &out) {
+    // names to look up, and string values to compare with (string_equals): both go into the same pool
+    if (n.t == V_STR && n.s.size() <= 40) out.push_back(n.s);
     if (n.t == V_OBJ) for (auto &k : n.kids) out.push_back(k.name);
     for (auto &k : n.kids) collect_names(k, out);
 }
@@ -20,7 +22,7 @@ Bytes gen_document(Rng &rd, int tier, int &root_kind, Node *tree_out, bool &vali
     unsigned cls = (unsigned)rd.below(100);
     k.max_nodes = cls < 35 ? 1 + (int)rd.below(6) : cls < 85 ? 4 + (int)rd.below(18) : 15 + (int)rd.below(tier ? 80 : 30);
     k.alphabet = (int)rd.below(3);
-    k.long_strings = rd.chance(1, 14) ? (rd.chance(1, tier ? 3 : 8) ? 2 : 1) : 0;
+    k.long_strings = rd.chance(1, 14) ? (rd.chance(1, tier ? 3 : 8) ? (rd.chance(1, 4) ? 3 : 2) : 1) : 0;
     k.p_container = 20 + (int)rd.below(45);
     k.p_empty = 10 + (int)rd.below(40);
     k.max_obj_depth = 1 + (int)rd.below(6);
@@ -102,7 +104,12 @@ void gen_sloppy_ops(Rng &ro, std::vector<Op> &ops, int nops, const std::vector<B
         else if (c < 695) ops.push_back(mk(P_FIELD_ENS_LEN, 0, name(), 1 + (int64_t)ro.below(9)));
         else if (c < 705) ops.push_back(mk(P_FIELD_NULL, (int64_t)ro.below(4), Bytes(), (int64_t)ro.below(8)));
         else if (c < 740) ops.push_back(mk(P_NEXT_ENSURE, 0, Bytes(), (int64_t)ro.below(10)));
-        else if (c < 760) { Bytes s(ro.below(5)); for (auto &x : s) x = (uint8_t)('a' + ro.below(3)); ops.push_back(mk(P_STR_EQ, 0, s)); }
+        else if (c < 760) {
+            Bytes s;
+            if (!names.empty() && ro.chance(3, 4)) s = names[ro.below(names.size())];     // a caller compares with strings it expects in the document
+            else { s.resize(ro.below(5)); for (auto &x : s) x = (uint8_t)('a' + ro.below(3)); }
+            ops.push_back(mk(P_STR_EQ, 0, s));
+        }
         else if (c < 800) ops.push_back(mk(P_GET_RAW));
         else if (c < 830) ops.push_back(mk(P_TO_WRITER, (int64_t)ro.below(doclen + 4)));
         else if (c < 850) ops.push_back(mk(P_PRINT));
